@@ -327,9 +327,28 @@ def run_one(mod, ctx: Ctx, name: str, idx: int) -> None:
         g.fn(ctx, rng, idx)
     except CaseTimeout:
         ctx.harness_errors.append("watchdog: gen %s case %d exceeded %.0f s" % (name, idx, limit))
-    except Exception:
-        ctx.harness_errors.append("gen %s case %d: %s" % (
-            name, idx, traceback.format_exc(limit=-5)))
+    except Exception as e:
+        # An exception that escapes a case.  If it was RAISED INSIDE the library
+        # under test (deepest frame in <repo>/pyphysim) by a call the driver did
+        # not expect to fail, it is library behaviour and therefore a violation
+        # ("... completes" is part of every property; on the unchanged tree no
+        # generator produces one); anything raised in the harness itself is a
+        # harness error = inconclusive.
+        tb = e.__traceback__
+        deepest = None
+        while tb is not None:
+            deepest = tb.tb_frame
+            tb = tb.tb_next
+        fn = os.path.abspath(deepest.f_code.co_filename) if deepest is not None else ""
+        if fn.startswith(os.path.join(REPO, "pyphysim") + os.sep):
+            ctx.ev("no-unexpected-exception", False,
+                   cls="%s@%s:%s" % (type(e).__name__, os.path.basename(fn),
+                                     deepest.f_code.co_name),
+                   detail={"exception": repr(e),
+                           "traceback": traceback.format_exc(limit=-6)})
+        else:
+            ctx.harness_errors.append("gen %s case %d: %s" % (
+                name, idx, traceback.format_exc(limit=-5)))
     finally:
         try:
             _ARMED[0] = False
